@@ -1608,14 +1608,18 @@ func (g *Gen) strExpr(sc *scope, d int, fx bool, k int) Expr {
 				holes = append(holes, vi)
 			}
 		}
-		if len(holes) == 0 {
-			return nil
-		}
 		si := &SInterp{Raw: g.P.RawStr && g.R.Chance(0.2)}
-		n := 1 + g.R.Intn(3)
+		// 0..3 holes: a hole-less interpolated literal is still an interpolated literal (its % are text)
+		n := g.R.Intn(4)
+		if len(holes) == 0 {
+			n = 0
+		}
+		if n == 0 {
+			si.Parts = append(si.Parts, SPart{Text: core.Pick(g.R, []string{"100% done", "%", "no hole", "%d of %s", "a%%b"})})
+		}
 		for i := 0; i < n; i++ {
 			if g.R.Chance(0.6) {
-				si.Parts = append(si.Parts, SPart{Text: core.Pick(g.R, []string{"a=", " and ", ":", "v ", "-", "x", "(", ")"})})
+				si.Parts = append(si.Parts, SPart{Text: core.Pick(g.R, []string{"a=", " and ", ":", "v ", "-", "x", "(", ")", "% ", "%d"})})
 			}
 			h := core.Pick(g.R, holes)
 			*h.used = true
